@@ -242,6 +242,7 @@ type linParams struct {
 	Filler     int      `json:"filler_keys_per_goroutine"`
 	OpsPer     int      `json:"ops_per_goroutine"`
 	Placement  string   `json:"placement"`
+	Think      int      `json:"think_spin"` // upper bound of the busy-wait between operations (0 = back to back)
 }
 
 type linCase struct {
@@ -260,6 +261,15 @@ type linResult struct {
 	cadFail int
 	grew    bool
 	wrapped bool
+}
+
+// spin burns roughly n nanoseconds without touching shared memory.
+func spin(n int) uint64 {
+	x := uint64(n) | 1
+	for i := 0; i < n; i++ {
+		x = x*6364136223846793005 + 1442695040888963407
+	}
+	return x
 }
 
 func idOf(v any) (id uint64, key uint64, ok bool) {
@@ -283,6 +293,14 @@ func runLinHistory(c *ctx, table string, idx int) *linResult {
 	p.OpsPer = total / p.Goroutines
 	if p.OpsPer < 10 {
 		p.OpsPer = 10
+	}
+	// All goroutines hammering one segment back to back are permanently queued
+	// on its lock, i.e. every operation overlaps with one of every other
+	// goroutine; the checker's search is exponential in that number. Dense
+	// histories are therefore run with few goroutines, larger crowds with a
+	// random busy-wait between operations (outside the stamped interval).
+	if p.Goroutines > 8 || rng.IntN(2) == 0 {
+		p.Think = p.Goroutines * p.Goroutines * (20 + rng.IntN(40))
 	}
 	// placement of hot + filler keys
 	seg := rng.IntN(256)
@@ -315,6 +333,7 @@ func runLinHistory(c *ctx, table string, idx int) *linResult {
 		ctr  uint64
 		keys []uint64
 		fail *seqFail
+		spun uint64
 	}
 	newVal := func(w *worker, k uint64) *cv {
 		w.ctr++
@@ -340,6 +359,9 @@ func runLinHistory(c *ctx, table string, idx int) *linResult {
 		op := t.ops[w.rng.IntN(len(t.ops))]
 		if w.rng.IntN(6) == 0 {
 			runtime.Gosched()
+		}
+		if p.Think > 0 {
+			w.spun += spin(w.rng.IntN(p.Think))
 		}
 		rec := linOp{C: w.id, Op: op, K: k}
 		switch op {
